@@ -15,6 +15,7 @@ import random
 
 import gen
 import vlib
+from repolib import classify, negative_controls, run_trace
 
 LEVEL = "model_checking"
 RELEVANT_STATE = {"Unreadable", "Dangling"}
@@ -61,84 +62,6 @@ def programs(seed, n):
         progs.append({"id": "c03-%d-%d" % (seed, i), "seed": seed * 1000 + i, "cfg": cfg, "probe": "none",
                       "steps": steps + pre + [cut], "sweep": len(steps) + len(pre), "cut": cut["cmd"]})
     return progs
-
-
-def classify(ctx, r, recs, by_id, prop_tags_state, prop_tags_step, what_prefix):
-    """turn NONCONF prints into violation records, first occurrence per (program, tag, subject)"""
-    seen = set()
-    for nc in r.printed("NONCONF"):
-        line, sc, kind, items = nc[1], nc[2], nc[3], nc[4]["#set"]
-        root = sc.split("#")[0]
-        prog = by_id.get(root, {})
-        for it in items:
-            tag = it[0]
-            if kind == "state":
-                if tag not in prop_tags_state:
-                    continue
-                subjects, excused, running = it[1], it[2], it[3]
-                if excused:
-                    continue
-                key = (root, tag)
-                detail = {"subjects": subjects, "running": running}
-            else:
-                if tag not in prop_tags_step:
-                    continue
-                key = (root, tag)
-                detail = {"item": it}
-            if key in seen:
-                continue
-            seen.add(key)
-            ev = recs[line - 1] if 0 < line <= len(recs) else {}
-            ctx.violation({"id": root, "scenario": sc, "tag": tag, "cmd": prog.get("cut", "?"), "kind": kind,
-                           "what": "%s: %s in scenario %s after event %d (%s)" % (what_prefix, tag, sc, line, ev.get("e")),
-                           "detail": detail, "program": prog, "event": ev})
-
-
-def run_trace(ctx, progs, tag, timeout=3000):
-    pf = os.path.join(ctx.out, "programs-%s.ndjson" % tag)
-    with open(pf, "w") as f:
-        for p in progs:
-            f.write(json.dumps(p) + "\n")
-    trace = os.path.join(ctx.out, "trace-%s.ndjson" % tag)
-    rc, out = vlib.vh(["repo", "--programs", pf, "--out", trace], timeout=timeout)
-    if rc != 0:
-        raise vlib.ToolError("repo driver failed: " + out[-3000:])
-    recs = [json.loads(l) for l in open(trace)]
-    r = vlib.tlc("RepoTrace.tla", "RepoTrace.cfg", workers=1, timeout=timeout, env={"TRACE": trace},
-                 metadir=os.path.join(ctx.out, "tv-" + tag), heap="6g")
-    if r.error or r.violated:
-        open(os.path.join(ctx.out, "tv-%s.log" % tag), "w").write(r.out)
-        raise vlib.ToolError("trace validation failed to run: %s" % (r.error or r.violated))
-    if r.printed("TOOLERR"):
-        raise vlib.ToolError("trace spec: %s" % r.printed("TOOLERR")[:2])
-    ctx.states += r.distinct
-    ctx.transitions += r.generated
-    return recs, r
-
-
-def negative_controls(ctx, recs):
-    """drop the index write of a backup / move a snapshot write before its index write: must be rejected"""
-    # first scenario only
-    first = []
-    for e in recs:
-        if e["e"] == "reset" and first:
-            break
-        first.append(e)
-    widx = [i for i, e in enumerate(first) if e["e"] == "widx"]
-    wsnap = [i for i, e in enumerate(first) if e["e"] == "wsnap"]
-    if not widx or not wsnap or wsnap[0] < widx[0]:
-        raise vlib.ToolError("negative control: first scenario has no backup with index and snapshot write")
-    a = [e for i, e in enumerate(first) if i != widx[0]]
-    b = list(first)
-    b.insert(widx[0], b.pop(wsnap[0]))
-    for name, tr in (("drop-index-write", a), ("snapshot-before-index", b)):
-        tr = [e for e in tr if e["e"] != "probe"]
-        f = os.path.join(ctx.out, "neg-%s.ndjson" % name)
-        open(f, "w").write("\n".join(json.dumps(e) for e in tr) + "\n")
-        r = vlib.tlc("RepoTrace.tla", "RepoTrace.cfg", workers=1, timeout=600, env={"TRACE": f},
-                     metadir=os.path.join(ctx.out, "tv-neg"))
-        hit = any(it[0] == "Unreadable" for nc in r.printed("NONCONF") if nc[3] == "state" for it in nc[4]["#set"])
-        ctx.negative_control(hit, name)
 
 
 def run(ctx):
